@@ -38,6 +38,11 @@ fn io_kind(st: u8) -> io::ErrorKind {
         _ => io::ErrorKind::Other,
     }
 }
+/// state classes as used in witness keys and canonical ranks: the I/O kinds are one class
+fn class_of(st: u8) -> u8 {
+    st.min(3)
+}
+const CLASS_NAMES: [&str; 4] = ["ok", "nf", "undec", "io"];
 const DELIVERY: [&str; 3] = ["Slice", "Buffer", "Owned"];
 const CALLS: [&str; 3] = ["load", "load_owned", "load_expect"];
 const FRONTS: [&str; 4] = ["AssetCache", "AssetCache.as_any_cache", "LocalAssetCache", "LocalAssetCache.as_any_cache"];
@@ -490,6 +495,10 @@ struct UnitA {
     states: Vec<u8>,
 }
 impl UnitA {
+    /// canonical form used in witness keys (I/O kinds folded into one class)
+    fn key_name(&self) -> String {
+        format!("{} ext={} {} {} [{}]", FAMS[self.fam as usize], self.n, DVS[self.dv as usize], style_names(self.fam)[self.style as usize], self.states.iter().map(|&s| CLASS_NAMES[class_of(s) as usize]).collect::<Vec<_>>().join(","))
+    }
     fn name(&self) -> String {
         format!("{} ext={} {} {} [{}]", FAMS[self.fam as usize], self.n, DVS[self.dv as usize], style_names(self.fam)[self.style as usize], self.states.iter().map(|&s| ST_NAMES[s as usize]).collect::<Vec<_>>().join(","))
     }
@@ -508,6 +517,30 @@ impl CaseA<'_> {
     fn short(&self) -> String {
         let e = if self.edits.is_empty() { String::new() } else { format!(" then {}", self.edits.iter().map(|(i, s)| format!("{}:={}", EXT_NAMES[*i], ST_NAMES[*s as usize])).collect::<Vec<_>>().join(",")) };
         format!("{} | {} {} via {}{e}", self.u.name(), DELIVERY[self.delivery as usize], CALLS[self.call as usize], FRONTS[self.front as usize])
+    }
+    fn key(&self) -> String {
+        let e = if self.edits.is_empty() { String::new() } else { format!(" then {}", self.edits.iter().map(|(i, s)| format!("{}:={}", EXT_NAMES[*i], CLASS_NAMES[class_of(*s) as usize])).collect::<Vec<_>>().join(",")) };
+        format!("{} | {} {} via {}{e}", self.u.key_name(), DELIVERY[self.delivery as usize], CALLS[self.call as usize], FRONTS[self.front as usize])
+    }
+    /// simplest-first order that does not depend on tier or seed: fewer edits, shorter extension
+    /// list, family, default kind, style, state classes, edit classes, delivery, call, front-end
+    fn canon_rank(&self) -> u64 {
+        let mut r = self.edits.len() as u64;
+        r <<= 1; // plain assets before chains
+        r = (r << 2) | self.u.n as u64;
+        r = (r << 3) | self.u.fam as u64;
+        r = (r << 2) | self.u.dv as u64;
+        r = (r << 2) | self.u.style as u64;
+        for i in 0..3 {
+            r = (r << 2) | self.u.states.get(i).map_or(0, |&s| class_of(s)) as u64;
+        }
+        for k in 0..2 {
+            let (i, s) = self.edits.get(k).copied().unwrap_or((0, 0));
+            r = (r << 4) | ((i as u64) << 2) | class_of(s) as u64;
+        }
+        r = (r << 2) | self.delivery as u64;
+        r = (r << 2) | self.call as u64;
+        (r << 2) | self.front as u64
     }
     fn json(&self) -> Value {
         json!({"what": "asset", "fam": self.u.fam, "n": self.u.n, "dv": self.u.dv, "style": self.u.style, "states": self.u.states, "delivery": self.delivery, "call": self.call, "front": self.front, "edits": self.edits.iter().map(|(i, s)| json!([i, s])).collect::<Vec<_>>()})
@@ -551,6 +584,7 @@ fn judge_err(o: &ErrObs, class: Class, kinds: &[io::ErrorKind], id: &str, at: &s
 
 fn run_asset_case<T: TA>(c: &CaseA, world: &Mem, contents: &[(Vec<u8>, Vec<u8>, Vec<u8>)], ctx: &mut Ctx) {
     let u = c.u;
+    ctx.rank_override = Some(c.canon_rank());
     let mut states = u.states.clone();
     for (i, s) in states.iter().enumerate() {
         world.0.slots[i].st.store(*s, Relaxed);
@@ -616,6 +650,7 @@ fn run_asset_case<T: TA>(c: &CaseA, world: &Mem, contents: &[(Vec<u8>, Vec<u8>, 
             (Obs::Err(o), Exp::Err(class, kinds)) => {
                 sig.push((2, *class as u8));
                 judge_err(o, *class, kinds, ID, &at, &mut v);
+                tie_note(o, &states, ctx);
             }
             (Obs::Err(o), _) => {
                 sig.push((3, 0));
@@ -681,14 +716,31 @@ fn run_asset_case<T: TA>(c: &CaseA, world: &Mem, contents: &[(Vec<u8>, Vec<u8>, 
     }
     if !v.is_empty() {
         let short = c.short();
+        let key = c.key();
         let mut seen: Vec<&str> = vec![];
         for (k, d) in v {
             if !seen.contains(&k) {
                 seen.push(k);
-                ctx.violation(k, &short, format!("{short}: {d}"), c.json());
+                ctx.violation(k, &key, format!("{short}: {d}"), c.json());
             }
         }
     }
+}
+
+/// Not judged (the property leaves it open): when several extensions fail with the same best
+/// class, which one is reported? Counted so that a change of the tie-break is at least visible.
+fn tie_note(o: &ErrObs, states: &[u8], ctx: &mut Ctx) {
+    if o.class != Class::NotFound && o.class != Class::IoOther {
+        return;
+    }
+    let same: Vec<usize> = states.iter().enumerate().filter(|(_, &s)| if o.class == Class::NotFound { s == ST_NF } else { s >= 3 }).map(|(i, _)| i).collect();
+    if same.len() < 2 {
+        return;
+    }
+    let Some(ext) = o.text.rsplit(':').next() else { return };
+    let Some(i) = EXT_NAMES.iter().position(|e| *e == ext) else { return };
+    let which = if i == same[0] { "first" } else if i == *same.last().unwrap() { "last" } else { "middle" };
+    ctx.res.add_note_count(&format!("unjudged_same_class_pick:{}:{which}", if o.class == Class::NotFound { "not-found" } else { "io-other" }), 1);
 }
 
 struct Tier {
@@ -932,6 +984,26 @@ struct CaseC<'a> {
     edits: &'a [(usize, u8)],
 }
 impl CaseC<'_> {
+    fn key(&self) -> String {
+        let e = if self.edits.is_empty() { String::new() } else { format!(" then leaf:={}", self.edits.iter().map(|(_, s)| CLASS_NAMES[class_of(*s) as usize]).collect::<Vec<_>>().join(",")) };
+        format!("chain {} over leaf[{}] | {} {} via {}{e}", self.u.kinds.iter().rev().map(|&k| KINDS[k as usize]).collect::<Vec<_>>().join(" > "), CLASS_NAMES[class_of(self.u.leaf) as usize], DELIVERY[self.delivery as usize], CALLS[self.call as usize], FRONTS[self.front as usize])
+    }
+    fn canon_rank(&self) -> u64 {
+        let mut r = self.edits.len() as u64;
+        r = (r << 1) | 1;
+        r = (r << 2) | self.u.depth() as u64;
+        for i in 0..3 {
+            r = (r << 2) | self.u.kinds.get(i).copied().unwrap_or(0) as u64;
+        }
+        r = (r << 2) | class_of(self.u.leaf) as u64;
+        for k in 0..2 {
+            r = (r << 2) | self.edits.get(k).map_or(0, |e| class_of(e.1)) as u64;
+        }
+        r <<= 9; // same width as the plain-asset rank
+        r = (r << 2) | self.delivery as u64;
+        r = (r << 2) | self.call as u64;
+        (r << 2) | self.front as u64
+    }
     fn short(&self) -> String {
         let e = if self.edits.is_empty() { String::new() } else { format!(" then leaf:={}", self.edits.iter().map(|(_, s)| ST_NAMES[*s as usize]).collect::<Vec<_>>().join(",")) };
         format!("{} | {} {} via {}{e}", self.u.name(), DELIVERY[self.delivery as usize], CALLS[self.call as usize], FRONTS[self.front as usize])
@@ -944,6 +1016,7 @@ impl CaseC<'_> {
 fn run_chain_case<T: Chain>(c: &CaseC, world: &Mem, ctx: &mut Ctx) {
     let u = c.u;
     let d = u.depth();
+    ctx.rank_override = Some(c.canon_rank());
     world.0.slots[0].st.store(u.leaf, Relaxed);
     world.0.delivery.store(c.delivery, Relaxed);
     let front = Front::new(c.front, world.clone());
@@ -1050,11 +1123,12 @@ fn run_chain_case<T: Chain>(c: &CaseC, world: &Mem, ctx: &mut Ctx) {
     }
     if !v.is_empty() {
         let short = c.short();
+        let key = c.key();
         let mut seen: Vec<&str> = vec![];
         for (k, d) in v {
             if !seen.contains(&k) {
                 seen.push(k);
-                ctx.violation(k, &short, format!("{short}: {d}"), c.json());
+                ctx.violation(k, &key, format!("{short}: {d}"), c.json());
             }
         }
     }
